@@ -1,5 +1,5 @@
 """C08 — 1D and 2D tessellations depend only on the active coordinates (the projection mechanisms)."""
-from . import dims, grid, e3sets, rules
+from . import dims, grid, e3sets, rules, images
 from .. import smt, runner, kani
 
 
@@ -8,17 +8,17 @@ def run(tier, seed):
     o2, u2 = dims.normalisation_obligations("C08"); obs += o2
     o3, u3 = grid.cuboid_obligations("C08")          # walls over the reals: tripled along exactly the active axes
     obs += o3
+    o4, f4 = images.obligations("C08"); obs += o4      # periodic images only along the active axes
     smt.discharge_all(obs, tier)
     results = [runner.from_smt(o) for o in obs]
     results += kani.run_specs("C08", e3sets.GENERATOR + e3sets.VALID + e3sets.CUBOID, tier)
-    fns = [{"fn": u.label, "slice_sha": u.sha} for u in units + u3] + u2
+    fns = [{"fn": u.label, "slice_sha": u.sha} for u in units + u3] + u2 + f4
     fns += [{"fn": x, "backend": "Kani on the real crate"} for x in (e3sets.U_GEN, e3sets.U_VALID, e3sets.U_CUB)]
     meta = {
         "level": "proof", "functions": fns,
         "assumptions": ["A-REAL for the E2 obligations (from_dual, normalisation prefix, cuboid over the reals)",
                         "E3 cuboid: " + e3sets.W_Q + "; thorough adds " + e3sets.W_T,
                         "intersect_planes is replaced by a fresh result in from_dual (its own contract is C19's)",
-                        "image enumeration along active axes only (RTreeWrappingNearestNeighbourIter::new) is C06's bounded obligation",
                         "NOT decided: '1D equals the closed form', '2D equals the 3D slab', measures are lengths/areas - statements about the composed float algorithm (C01/C02)"],
         "trusted_base": ["vx (syn 2 dump)", "vlib/symex.py", "z3 4.8.12 / z3 5.1 / cvc5 1.0", "Kani 0.68 / CBMC 6.11 IEEE-754 model, CaDiCaL"],
         "explanation": "Generator::new keeps the id and the active coordinates bit for bit and zeroes the unused ones for every bit pattern (kani::ensures on the real function, "
